@@ -783,7 +783,7 @@ class SigmaRegularExpression(SigmaType):
             for flag in self.flags:
                 flags |= self.sigma_to_python_flags[flag]
             re.compile(str(self.regexp), flags)
-        except re.error as e:
+        except (re.error, OverflowError, RecursionError) as e:
             raise SigmaRegularExpressionError(
                 f"Regular expression '{str(self.regexp)}' is invalid: {str(e)}"
             ) from e
